@@ -494,6 +494,13 @@ def r03_6(ctx, S, prog, crate):
     ctx.check(len(imp) == 1 and imp[0].get("derived"), "R03.6", ["SampleCollection", "derived-Default"], "SampleCollection's Default is not the derived one: %s" % imp, None)
 
 
+def r03_7(ctx, S, prog, crate):
+    """Test mode is what the entry point asked for: the SharedContext that initial_mode reads is_test() from carries the
+    action requested of run_action (shared with R14.2), and initial_mode selects Test exactly on that flag (R19.1)."""
+    from .C14 import requested_action_governs
+    requested_action_governs(ctx, "R03.7", prog, crate)
+
+
 def run(ctx, prog, crate):
     S = Sampling(prog, crate)
     if not ctx.anchor("R03.1", "sampling loop", 1 if S.body is not None and S.loop is not None and S.cond_switch is not None else 0, 1):
@@ -505,3 +512,4 @@ def run(ctx, prog, crate):
     r03_4(ctx, S, prog, crate)
     r03_5(ctx, prog, crate)
     r03_6(ctx, S, prog, crate)
+    r03_7(ctx, S, prog, crate)
